@@ -10,7 +10,7 @@ CHECKS = {
    technique="Rocq theorems over a Gallina model + differential correspondence (extracted OCaml vs Go)",
    design="7 (C05)"),
   "C07": dict(
-   text="Theorems in Rocq (rocq/Props/C07.v, axiom-free) about canon = c14n.CanonicalJSON as modelled in rocq/Json/C14n.v AFTER the proposed patches fixes/C07-*.diff: canon t = print (norm (parse t)); texts whose values have equal norm (member order at any depth, whitespace, escape style, null members) have equal canonical forms; Object.Sort is a stable sort independent of the order of differently named members; norm idempotent, drops exactly the null members, keeps array elements; print followed by parse gives back the value minus null members (strings: for every byte string encodeString accepts; integers: all int64; floats: under the stated premise that strconv reads back the shortest text it wrote), hence canon (canon t) = canon t and different content never shares a canonical form; members of every printed object are in byte order; escapes are exactly the README table (proved over the safeSet table regenerated from c14n/tables.go); canon accepts only what the strict reader parses as one complete value and never panics on any input (bracket-matching invariant of the token machine); member names are strictly increasing when the input repeats none. What the unfixed tree does is stated as seven _refuted theorems with vm_compute witnesses ({,\"b\":1}; -.01.5E0; panic on empty input and {\"a\":; [1,2 / 1 2 / {\"a\":1}} / 01 accepted; 1e400 -> null; invalid UTF-8 in the name of a null member accepted; U+FFFD rejected) that the check replays on the Go implementation. The model is tied to c14n/*.go by running Go and the extracted model on ~108k texts per quick run (every sampled Unicode scalar value and every ASCII control as one-character string and key - all 1.1M in the thorough tier -, 8k ordered key pairs, int64 boundaries, a decimal x exponent grid of either sign and half-way decimals, random values nested to depth 6 in 3 concrete syntaxes each, truncation at every byte / trailing data / corruption / bad escapes / invalid UTF-8), and an independent oracle P (python json + the README rules) judges Go's output itself: valid UTF-8 JSON, re-parses to the normalised content, idempotent under a second pass, names in code point order, no null members, number and escape shapes, equal across the 3 syntaxes, error on anything that is not one complete value.",
+   text="Theorems in Rocq (rocq/Props/C07.v, axiom-free) about canon = c14n.CanonicalJSON as modelled in rocq/Json/C14n.v AFTER the proposed patches fixes/C07-*.diff: canon t = print (norm (parse t)); texts whose values have equal norm (member order at any depth, whitespace, escape style, null members) have equal canonical forms; Object.Sort is a stable sort independent of the order of differently named members; norm idempotent, drops exactly the null members, keeps array elements; print followed by parse gives back the value minus null members (strings: for every byte string encodeString accepts; integers: all int64; floats: under the stated premise that strconv reads back the shortest text it wrote - a computable premise, floats_okb, which the check evaluates on every generated text holding a float), hence canon (canon t) = canon t and different content never shares a canonical form; members of every printed object are in byte order; escapes are exactly the README table (proved over the safeSet table regenerated from c14n/tables.go); canon accepts only what the strict reader parses as one complete value and never panics on any input (bracket-matching invariant of the token machine); member names are strictly increasing when the input repeats none. What the unfixed tree does is stated as seven _refuted theorems with vm_compute witnesses ({,\"b\":1}; -.01.5E0; panic on empty input and {\"a\":; [1,2 / 1 2 / {\"a\":1}} / 01 accepted; 1e400 -> null; invalid UTF-8 in the name of a null member accepted; U+FFFD rejected) that the check replays on the Go implementation. The model is tied to c14n/*.go by running Go and the extracted model on ~108k texts per quick run (every sampled Unicode scalar value and every ASCII control as one-character string and key - all 1.1M in the thorough tier -, 8k ordered key pairs, int64 boundaries, a decimal x exponent grid of either sign and half-way decimals, random values nested to depth 6 in 3 concrete syntaxes each, truncation at every byte / trailing data / corruption / bad escapes / invalid UTF-8), and an independent oracle P (python json + the README rules) judges Go's output itself: valid UTF-8 JSON, re-parses to the normalised content, idempotent under a second pass, names in code point order, no null members, number and escape shapes, equal across the 3 syntaxes, error on anything that is not one complete value.",
    note="Trusted: Coq kernel, extraction (ExtrOcamlBasic), OCaml driver, Go harness, python oracle P. Modelled, not verified: encoding/json's tokenizer and strconv (ParseInt/ParseFloat/AppendFloat) are exact-integer Gallina stand-ins validated differentially (0 differences on 300k fuzz cases incl. half-way decimals and subnormals); the float round trip is a premise of the round-trip theorems (discharged for float-free values). Not proved: code-point order = byte order of UTF-8 (compared on 8k ordered key pairs per run), the float text shape as a theorem about the AppendFloat stand-in. The unchanged /repo violates C07 in six recorded ways (findings/C07.json, narrow matchers; five have patches in fixes/, the U+FFFD rejection has none): the check reports them as KNOWN-FINDING and anything else as VIOLATION; it detects which patches a tree has by replaying the witnesses and compares Go with the model configured accordingly.",
    technique="Rocq theorems over a Gallina model of the token handlers and printers + differential correspondence (extracted OCaml vs Go) + independent specification oracle",
    design="7 (C07)"),
